@@ -18,6 +18,24 @@ CLAIMED = {
  "C04": dict(technique="TLA+ None-rule table vs case analysis checked by TLC; all None cells replayed into reval",
    text="TLC checks that for every kind, every operand position and every other operand of the pool the operator table equals the declarative None rule (never an error, with exactly the stated exceptions); every such cell is replayed into the code.",
    ref="6 C04", note="Trusted: NoneRule tables in Ops.tla; exhaustive over kinds x positions x pool."),
+ "C05": dict(technique="TLA+ small-step evaluator machine checked by TLC to refine the denotation (order, laziness, exactly-once); every behaviour replayed into reval with logging user functions",
+   text="TLC runs the step machine of spec/Eval.tla on every expression tree with at most L probe leaves (non-cacheable logging user functions) for every assignment of true/false/None/Int/failure, checking at every step that the invocation log stays a prefix of the denotation's log and at completion that outcome and log equal the denotation's; every behaviour (program, assignment, prescribed outcome, prescribed exact invocation sequence) is replayed through the public API and compared.",
+   ref="6 C05", note="Trusted: Den in spec/Eval.tla as the statement of the evaluation order; harness ModelFn logs at call entry. L = 3 (quick) / 4 (thorough) leaves; deeper trees only by the random tier."),
+ "C09": dict(technique="TLA+ ruleset state machine (RuleSet.tla) model-checked by TLC; every enumerated ruleset x input x failure pattern replayed through ruleset()..build().evaluate_value",
+   text="TLC enumerates every ruleset of at most MaxRules rules over a pool of rule shapes covering each error class and user-function calls, x inputs x failure patterns, and checks one outcome per rule, in order, each equal to the rule evaluated alone with an empty cache; every case is replayed and compared on length, order, the rule carried by each outcome (name and equality with the i-th rule added) and value.",
+   ref="6 C09", note="Trusted: RuleSet.tla / Eval.tla; user functions deterministic as the property stipulates. evaluate(&T) vs evaluate_value(serialized T) is covered under C13."),
+ "C10": dict(technique="TLA+ path-resolution rule (Resolve) checked against the evaluator spec by TLC; every (input, root, path) replayed into reval",
+   text="TLC checks the evaluator specification against an independent structural-recursion statement of path resolution for every nested input x symbol table x root x path up to MaxSteps steps (near-miss keys, off-by-one indices, wrong step kinds, the key `facts`), and every case is replayed; all elements carry distinct values so data from another path is always visible.",
+   ref="6 C10", note="Trusted: Resolve in spec/MC_Path.tla as the reading of the property; exhaustive over the stated inputs and paths."),
+ "C11": dict(technique="TLA+ ruleset state machine with per-evaluation cache, counter-valued functions; cache invariants model-checked by TLC; every history replayed into reval comparing the full invocation log",
+   text="User functions return [argument, ordinal], so every cache decision is observable. TLC checks at-most-once per (evaluation, function, argument), hits see the first result, entries keyed by function and argument, failures not cached, non-cacheable always invoked, fresh cache per evaluation, error names the function; every history (calls spread over rules in every way, consecutive evaluations) is replayed and the exact invocation log and outcomes compared.",
+   ref="6 C11", note="Trusted: RuleSet.tla; argument identity is representation identity (d1 vs d1.0 and -0.0 vs 0.0 are left out of the argument pool on purpose)."),
+ "C12": dict(technique="TLA+ ruleset state machine with Poll/Step/Drop actions model-checked by TLC over all interleavings; every poll-granular behaviour replayed with a hand-rolled executor",
+   text="TLC explores every interleaving of polls (and, model only, of machine micro-steps) of several evaluations of one ruleset whose user functions suspend 0..K times, with drops at every point, checking outcomes = function of (ruleset, input), ruleset and inputs unchanged, no cache leak, termination under fairness; every poll-granular behaviour is replayed on real futures with a noop waker: Pending/Ready and the log length after every poll, final outcomes, full log.",
+   ref="6 C12", note="Trusted: PollEval in RuleSet.tla as the model of one poll; ModelFn suspends by returning Pending exactly `suspend` times."),
+ "C15": dict(technique="TLA+ builder state machine model-checked by TLC over all call sequences; every sequence and every candidate function name replayed through the real builder with probe rules",
+   text="TLC checks after every builder call: names pairwise distinct, accepted = exactly the successful calls in order, accepted function names well-formed and not reserved, refusals name the offender; every sequence (and each of 75 candidate function names) is replayed on the real builder, then probe rules show exactly which functions and symbols the built ruleset holds.",
+   ref="6 C15", note="Trusted: WellFormed over the modelled code-point table (XID classes written out for the modelled alphabet) and the reserved-word list in RuleSet.tla."),
 }
 NA = {
  "C19": "stack exhaustion is a resource limit of the host (frame size x thread stack), not a property of an abstract transition system; a TLA+ model can only restate 'depth is unbounded' (DESIGN section 7)",
